@@ -664,7 +664,7 @@ func (w *c14World) exec(tr *c14Track, op c14Op, hist []c14Op, emit bool) {
 	r.Count(c14JSON(pre)+opTerm, class == "created" || class == "acted" || class == "recorded" || (live[key] != nil))
 	if emit {
 		term := fmt.Sprintf("Step %s (%s) %s %s", w.stateTerm(&pre), opTerm, outTerm, w.stateTerm(&post))
-		r.Case("hist", term, map[string]interface{}{"history": full, "class": class})
+		r.Case(c14Group(), term, map[string]interface{}{"history": full, "class": class})
 		if class == "acted" || class == "created" {
 			r.Sample(map[string]interface{}{"op": op, "class": class, "pre": pre, "post": post})
 		}
@@ -1129,6 +1129,16 @@ func c14DirectedDoubleRegistration(r *RunCtx) error {
 		hist = append(hist, op)
 	}
 	return nil
+}
+
+// c14GroupOverride: the C01 check runs the quorum part of this generator under its own group name
+var c14GroupOverride string
+
+func c14Group() string {
+	if c14GroupOverride != "" {
+		return c14GroupOverride
+	}
+	return "hist"
 }
 
 func runC14(r *RunCtx) error {
